@@ -139,6 +139,22 @@ func NewInjectorParamWithImports(ts []types.Type, isArg bool, pkg string, import
 // collectImportsFromType recursively collects imports needed for a type
 func collectImportsFromType(t types.Type, pkg string, imports map[string]*Import, referencedImports map[string]*Import, varPool *VarPool) {
 	switch typ := t.(type) {
+	case *types.Basic:
+		if typ.Kind() == types.UnsafePointer {
+			// unsafe.Pointer is spelled with its package
+			if imp, exists := imports[unsafePkgPath]; exists {
+				referencedImports[unsafePkgPath] = imp
+			} else {
+				newPkgName := varPool.GetName(unsafePkgName)
+				newImp := &Import{
+					Name:          newPkgName,
+					IsDefaultName: newPkgName == unsafePkgName,
+					IsUsed:        false,
+				}
+				imports[unsafePkgPath] = newImp
+				referencedImports[unsafePkgPath] = newImp
+			}
+		}
 	case *types.Named:
 		// the type arguments of a generic instance are written out too
 		for typeArg := range typ.TypeArgs().Types() {
